@@ -168,7 +168,7 @@ pub fn run(ctx: &Ctx) -> usize {
 	ctx.set_rule("C01's model space x compression {none, LZ4, ZSTD} x {hash requested, not}; forced cells (zero frames, no metadata, no end, no gecko, versions 3.0-3.6, doubled end, 4 ports with 2 ICs, gecko) x every compression enumerated; oracle: slippi::write(peppi::read(peppi::write(slippi::read(b)))) == b byte for byte, hash and quirk flag equal before/after, hash == independent one-shot XXH3-64 of the file; non-trivial as C01 (or a forced cell); distinct by xxh3(file, compression, hash flag)");
 	ctx.assume("arrow2's LZ4/ZSTD codecs are those peppi enables (io_ipc_compression)");
 	let mut violations = 0;
-	let n = FORCED.len() * 6 * ctx.n(8, 64);
+	let n = FORCED.len() * 6 * ctx.n(12, 96);
 	if run_enum(ctx, "forced", n, |i| json!({ "i": i }), |i| {
 		let (m, comp, hash, class) = forced_model(i);
 		check(ctx, &m, comp, hash, Some(class), true)
@@ -178,7 +178,7 @@ pub fn run(ctx: &Ctx) -> usize {
 		violations += 1;
 	}
 	let cfg = cfg(ctx);
-	if run_dna(ctx, "dna", ctx.n(2400, 60_000), dna_max(ctx), |dna, counting| {
+	if run_dna(ctx, "dna", ctx.n(9_000, 300_000), dna_max(ctx), |dna, counting| {
 		let (m, comp, hash) = dna_case(dna, &cfg);
 		check(ctx, &m, comp, hash, None, counting)
 	})
